@@ -38,7 +38,17 @@ ASSUMPTIONS = [
 ]
 SHARDS = {"quick": 4, "thorough": 16}
 BUDGET_S = {"quick": 75, "thorough": 700}
-FLOORS = {"col.cases": 200, "col.rows.supplied": 3000, "col.rows.default": 1500}
+_FLOORS = {"col.cases": 500, "col.rows.supplied": 30000, "col.rows.default": 9000, "col.reads": 40000,
+          "col.refbytes.reftype.H": 25, "col.refbytes.reftype.B": 40, "col.varbytes.stored_offsets": 30,
+          "col.varbytes.lentype.i": 5, "col.sortkeys": 15000,
+          "idx.cases": 350, "idx.stored.reads": 10000, "idx.stored.absent_checked": 8000,
+          "idx.column.reads.supplied": 12000, "idx.column.reads.default": 8000, "idx.column.some_segment_lacks_column": 600,
+          "idx.hit.column_fallback": 8000, "idx.hit.absent_checked": 6000, "idx.verifies.multisegment": 400,
+          "idx.verifies.with_deletions": 250, "idx.buffered.verifies": 250, "idx.reopen.copy_to_ram": 80,
+          "idx.reopen.reopened": 80, "idx.loose": 100, "idx.compound": 150}
+FLOORS = {"quick": _FLOORS,
+          "thorough": dict(_FLOORS, **{"col.refbytes.distinct>65535": 20, "col.varbytes.rows>32768": 40,
+                                       "col.varbytes.offtype.i": 20})}
 
 
 def rb(rng, n):
@@ -449,6 +459,10 @@ def column_case(ctx, rng, big=None):
             if sp.name == "VarBytes":
                 ctx.count("col.varbytes.stored_offsets" if r.had_stored_offsets else "col.varbytes.derived_offsets")
                 ctx.count("col.varbytes.lentype.%s" % r._lengths.typecode)
+                if n > 2 ** 15:
+                    ctx.count("col.varbytes.rows>32768")
+                if r.had_stored_offsets:
+                    ctx.count("col.varbytes.offtype.%s" % r._offsets.typecode)
             if sp.name == "RefBytes":
                 ctx.count("col.refbytes.reftype.%s" % r._typecode)
             if len(r) != n:
@@ -792,6 +806,9 @@ def verify(ctx, w, searcher, model, fspecs, where, sample_rng):
                     return bad("column_reader", fs, "doc %s (docnum %d, %s): got %s expected %s" % (
                         key_of[dn], dn, "supplied" if supplied else "not supplied", _short(got), _short(exp)),
                         doc=key_of[dn], field=fs.name, segments_having_column=has)
+            if len(cr) != reader.doc_count_all():
+                return bad("column_reader.len", fs, "len(column reader)=%d, doc_count_all=%d" % (len(cr), reader.doc_count_all()),
+                           field=fs.name, segments_having_column=has)
             # iteration covers deleted rows too: compare the live positions
             allv = list(cr)
             ctx.count("idx.column.iters")
@@ -1025,7 +1042,8 @@ def run(ctx):
             shape, nontrivial, w = index_case(ctx, rng)
         else:
             big = None
-            if not ctx.quick and idx % 100 == 0:
+            if not ctx.quick and idx % 100 == 2:
                 big = "ref65536" if (idx // 100) % 2 == 0 else "var32768"
+                ctx.count("col.big.%s" % big)
             shape, nontrivial, w = column_case(ctx, rng, big)
         ctx.case(shape, nontrivial, sample=w if idx % 101 in (0, 1) else None)
